@@ -37,10 +37,22 @@ pub struct Variant {
 /// All histories of `text` (at most `max_pushed` "line i pushed last" variants: when the file has more component lines
 /// the first, the middle and the last are taken, and the cap is reported by the caller's rule text).
 pub fn variants(text: &str, max_pushed: usize) -> Vec<Variant> {
+    variants_opt(text, max_pushed, false)
+}
+
+/// the component sets as they are right after the push, before any further normalization (a caller may evaluate them as
+/// they are: whatever they hold is "the components the building has")
+pub fn variants_raw(text: &str, max_pushed: usize) -> Vec<Variant> {
+    variants_opt(text, max_pushed, true)
+}
+
+fn variants_opt(text: &str, max_pushed: usize, raw: bool) -> Vec<Variant> {
     let mut out = vec![];
     let text = text.strip_prefix('\u{feff}').unwrap_or(text);
     let Ok(whole) = subj::parse(text) else { return out };
-    out.push(Variant { desc: "read the file, then normalize() once more".into(), comps: whole.clone().normalize().map_err(|e| format!("{e}")) });
+    if !raw {
+        out.push(Variant { desc: "read the file, then normalize() once more".into(), comps: whole.clone().normalize().map_err(|e| format!("{e}")) });
+    }
     let lines: Vec<&str> = text.lines().collect();
     let is_comp = |l: &str| {
         let t = l.trim();
@@ -53,7 +65,7 @@ pub fn variants(text: &str, max_pushed: usize) -> Vec<Variant> {
         // ambient / solar production pushed after the rest was read is a different declaration: the production the first
         // normalization added to cover the uses is, from then on, part of the data, and the pushed line comes on top of it
         let body = l.split('#').next().unwrap_or("");
-        if body.contains("PRODUCCION") && (body.contains("EAMBIENTE") || body.contains("TERMOSOLAR")) {
+        if !raw && body.contains("PRODUCCION") && (body.contains("EAMBIENTE") || body.contains("TERMOSOLAR")) {
             continue;
         }
         let Some(extra) = component_of(l) else { continue };
@@ -68,7 +80,11 @@ pub fn variants(text: &str, max_pushed: usize) -> Vec<Variant> {
             continue;
         }
         c1.data.push(extra);
-        out.push(Variant { desc: format!("read the file without line {} (`{}`), push that component, normalize()", i + 1, l.chars().take(60).collect::<String>()), comps: c1.normalize().map_err(|e| format!("{e}")) });
+        if raw {
+            out.push(Variant { desc: format!("read the file without line {} (`{}`), push that component (no further normalization)", i + 1, l.chars().take(60).collect::<String>()), comps: Ok(c1) });
+        } else {
+            out.push(Variant { desc: format!("read the file without line {} (`{}`), push that component, normalize()", i + 1, l.chars().take(60).collect::<String>()), comps: c1.normalize().map_err(|e| format!("{e}")) });
+        }
     }
     out
 }
